@@ -100,6 +100,42 @@ def OpArgsWP : Op → Prop
   | .map (.updateArgs kvs) => ∀ p ∈ kvs, ArgWP p.2
   | _ => True
 
+/-! ### keys: what uniqueness of identities depends on in a mapping
+
+`replaceKid` (dict item assignment in the model) overwrites *every* child stored under the key,
+and `_reset()` makes one child per declared field: a mapping node holding two children under
+one key, or a mapping class declaring one key twice, makes the model store one element twice.
+Python's dict cannot be in that state; the model's `Node` type can, so the identity theorems
+carry `kok` (a decidable check of the tree, preserved by every call). -/
+
+def isMap : SKind → Bool
+  | .dict | .sparse => true
+  | _ => false
+
+mutual
+/-- a class whose mapping classes (at any depth) declare every key once -/
+def swf : Schema → Bool
+  | .mk info _ subs => (!isMap info.kind || decide ((subs.map Schema.key).Nodup)) && swfL subs
+def swfL : List Schema → Bool
+  | [] => true
+  | f :: fs => swf f && swfL fs
+end
+
+mutual
+/-- a tree whose mappings hold at most one child per key, all of whose classes are `swf` -/
+def kok : Node → Bool
+  | .mk _ s kids => swf s && (!isMap s.kind || decide ((kids.map Node.key).Nodup)) && kokL kids
+def kokL : List Node → Bool
+  | [] => true
+  | k :: ks => kok k && kokL ks
+end
+
+/-- identities are unique, all below the allocation counter, keys unique in every mapping -/
+structure IdInv (s : HState) : Prop where
+  uniq : UniqueIds s.root
+  below : ∀ a ∈ ids s.root, a < s.next
+  keys : kok s.root = true
+
 /-! ### Element arguments that a call places -/
 
 def argElems : Arg → List Node
@@ -121,6 +157,19 @@ def placedMap : MapOp → List Node
 def placedArgs : Op → List Node
   | .seq o => placedSeq o
   | .map o => placedMap o
+
+/-- the Element arguments a call places are fresh or detached objects: none of their identities
+    occurs in the tree or twice among them, all were allocated before (below the counter: the
+    next fresh identity cannot collide with them), and they are key-well-formed themselves -/
+def ArgsFresh (s : HState) (op : Op) : Prop :=
+  ((placedArgs op).flatMap ids ++ ids s.root).Nodup ∧
+  (∀ a ∈ (placedArgs op).flatMap ids, a < s.next) ∧
+  ∀ e ∈ placedArgs op, kok e = true
+
+/-- `ArgsFresh` for every call of a history, each in the state it is applied to -/
+def HistFresh : HState → List HOp → Prop
+  | _, [] => True
+  | s, h :: hs => ArgsFresh s h.op ∧ HistFresh (hstep s h) hs
 
 /-- **C08 for histories** (stored-pointer clause): from any well-parented tree, after any sequence
     of list-protocol and dict-protocol calls applied to any of its elements — with plain values or with
